@@ -82,3 +82,5 @@ LEVEL = {
     'technique': 'Coq proof (bounded insertion over every enumeration order is exact k-NN; store enumeration complete; checker soundness) '
                  '+ replay of real flat searches judged by the verified checker',
 }
+
+CFG['rule'] = CFG['rule'] + ' ' + 'Additions: quantiser trigger thresholds are biased towards the history length so that training happens inside the history; a death of the child process is a violation (code 199).'
